@@ -196,6 +196,9 @@ def configs(tier):
         add("h_isolated", f"isolated|fit|cell={list(cell)}", cells=(cell,), when="fit")
     for cell in cells[:: (1 if tier == "thorough" else 3)]:
         add("h_isolated", f"isolated|transform|cell={list(cell)}", cells=(cell,), when="transform")
+    add("h_isolated", "isolated|fit|moving gap (no complete sample)", cells=((0, 0), (1, 1), (2, 2), (3, 0)), when="fit")
+    add("h_isolated", "isolated|transform|moving gap (no complete sample)", cells=((0, 0), (1, 1), (2, 2), (3, 0)), when="transform")
+    add("h_isolated", "isolated|transform|same count in every sample", cells=((0, 0), (1, 0), (2, 1), (3, 1)), when="transform")
     add("h_isolated", "isolated|fit|two cells same row", cells=((1, 0), (1, 2)), when="fit")
     add("h_isolated", "isolated|fit|cell + missing col", cells=((2, 1),), when="fit", base_cols=(0,))
     add("h_isolated", "isolated|fit|all but one cell of a column", cells=((0, 1), (1, 1), (2, 1)), when="fit")
